@@ -893,7 +893,7 @@ def shrink(case, sig, notes):
         d = np.array(rows, dtype=float)
         c2 = dict(case, data=d, perm=[int(i) for i in np.random.default_rng(len(rows)).permutation(len(rows))])
         try:
-            o = oracle(c2, {}, light=True)
+            o = oracle(c2, {}, light=(sig.get("clause") != "standalone-fit"))
         except Exception:
             return False
         return o is not None and o[0].get("clause") == sig.get("clause") and o[0].get("slicer") == sig.get("slicer") \
@@ -1457,7 +1457,7 @@ def run(ctx):
             sig, msg = o
             known = any(f.get("status") == "known" and all(sig.get(a) == v for a, v in f["match"].items()) for f in ctx.findings)
             small = case if known else shrink(case, sig, ctx.notes)
-            o2 = oracle(small, {}, light=True) or o
+            o2 = oracle(small, {}, light=(sig.get("clause") != "standalone-fit")) or o
             if o2[0].get("clause") != sig.get("clause"):
                 small, o2 = case, o
             if ctx.violation(o2[0], "joint fit (%s, %d rows, %s): %s" % (
